@@ -5,6 +5,8 @@ V = os.path.dirname(os.path.dirname(os.path.abspath(__file__)))
 ids = [json.loads(l)['id'] for l in open(os.path.join(V, 'properties.jsonl'))]
 TECH = 'bounded symbolic execution of the real code (clang IR -> ll2c -> CBMC 6.11 / SAT), counterexamples replayed on a g++ ASan build'
 CLAIMED = {
+    'C01': ('3.C01', 'A scripted test runs through the real runOneTest / runOneTestInCurrentProcess / Utest::run / PlatformSpecificSetJmp code in both builds (with and without C++ exceptions; setjmp/longjmp and Itanium EH modelled by the translator). The solver decides, for every script of 2 statements per phase x {continue, C++-style fail, C-style fail, throw int}, every plugin error pattern and every initial jump depth 0..7: body iff setup completed, teardown always, nothing after a failing statement, each failure recorded and printed once with its line, context and jump-buffer depth restored (inductive: covers arbitrarily long runs of failing tests). Plus: summary line OK/Errors and counts for all 64-bit counters; runner return value == 0 iff every repetition OK (repeat <= 4).',
+            'll2c --nlx model of setjmp/longjmp/EH (longjmp runs no destructors); std::exception arm not encoded (CPPUTEST_USE_STD_CPP_LIB=0); rethrow (-e) off; totals >= 2^31 outside the claim'),
     'C09': ('3.C09', 'MockNamedValue::equals is run symbolically for all 36 ordered integer type pairs with both 64-bit values free (oracle: sign-aware mathematical equality, both directions), for bool/pointer/function-pointer/string/buffer/double values and all cross-type pairs; all 36 stored-type x getter combinations are checked to return exactly the stored integer or fail the test.',
             'strings/buffers <= 3 bytes; failure text stubbed; CBMC float model for the double case'),
     'C03': ('3.C03', 'Every check macro is expanded as in a user test (15 CHECK_EQUAL operand types, 4x6 relational compares, the LONGS/BYTES/POINTERS/ENUMS/BITS families, doubles, 6 string checks, memory blocks, 13 C entry points) and run symbolically: both 64-bit operand words, all double bit patterns and tolerances, strings/blocks up to 3 bytes with symbolic NULL-ness; the solver decides failure-recorded <=> predicate false, exactly one count, exit exactly on failure.',
